@@ -53,7 +53,9 @@ MarkerClauses(c) ==
   FoldLeft(LAMBDA acc, kind :
              acc \o (IF c.markers[kind].shown
                      THEN Fail(c.markers[kind].on_grid, "C20.marker_not_on_a_sample." \o kind)
-                       \o Fail(ToSet(c.markers[kind].samples) \subseteq Genuine(c.t, kind, c.peakC), "C20.marker_not_a_genuine_cyclepoint." \o kind)
+                       \o Fail(IF c.marker_union      \* the marker artists could not be told apart by kind: every marker must be a genuine cyclepoint of SOME shown kind
+                              THEN ToSet(c.markers[kind].samples) \subseteq UNION { Genuine(c.t, k2, c.peakC) : k2 \in { k2 \in {"centre", "side", "rise", "decay"} : c.markers[k2].shown } }
+                              ELSE ToSet(c.markers[kind].samples) \subseteq Genuine(c.t, kind, c.peakC), "C20.marker_not_a_genuine_cyclepoint." \o kind)
                        \o (IF c.op \in {"cyclepoints_df", "cyclepoints_array"}      \* completeness is stated for the cyclepoint plots only
                            THEN Fail({ x \in Required(c.t, kind, c.peakC) : StrictlyInside(x, c.n, c.a, c.b) } \subseteq ToSet(c.markers[kind].samples), "C20.cyclepoint_inside_view_not_drawn." \o kind)
                            ELSE <<>>)
